@@ -75,6 +75,7 @@ type asyncCfg struct {
 	refLevel  string   // level setting of the appender references
 	stopTwice bool
 	stopRace  bool // Stop is called while the worker is still draining (C05); otherwise the harness first lets the worker drain
+	restart   bool // after Stop the SAME logger object is started again, takes three more items and is stopped again
 }
 
 type asyncObs struct {
@@ -121,6 +122,9 @@ func (c asyncCfg) name() string {
 	}
 	if c.stopRace && len(c.producers) > 0 && !c.stopTwice {
 		s += "/stop-races-drain"
+	}
+	if c.restart {
+		s += "/restart"
 	}
 	return s
 }
@@ -265,6 +269,36 @@ func (c asyncCfg) run(o *asyncObs) {
 			a.Stop()
 			a.Stop()
 		}
+	}
+	if c.restart {
+		// a second life of the same object: whatever the first Stop left behind must not leak into it
+		if err := l.Start(); err != nil {
+			o.err = "restart: " + err.Error()
+			return
+		}
+		var second []string
+		for s, op := range "EWE" {
+			id := idName(idCode(25, s)) // producer 'z'
+			if op == 'E' {
+				e := log.GetEvent()
+				e.Level = log.WarnLevel
+				e.Tag = "_t"
+				e.Fields = []log.Field{log.Int("id", idCode(25, s))}
+				o.submitted["E:"+id] = true
+				second = append(second, "E:"+id)
+				l.Append(e)
+			} else {
+				o.submitted["W:"+id] = true
+				second = append(second, "W:"+id)
+				l.Write([]byte(id))
+			}
+			o.returned[id] = true
+		}
+		o.perProd = append(o.perProd, second)
+		if !c.stopRace {
+			zzvrt.WaitQuiescent()
+		}
+		l.Stop()
 	}
 	o.stopped = true
 	o.counter = l.GetDiscardCounter()
@@ -471,6 +505,12 @@ func init() {
 		}
 		reg("C05", asyncCfg{policy: pol, prefill: 2, stopRace: true, producers: []string{"ZWE"}}, "qt", 2, 3)
 		reg("C05", asyncCfg{policy: pol, prefill: 100, gate: "helper", stopRace: true, producers: []string{"ZW"}}, "qt", 2, 3)
+	}
+	// a second life of the same logger object (Start, Stop, Start, Stop): conservation and order over both lives
+	for _, pol := range pols {
+		reg("C04", asyncCfg{policy: pol, prefill: 0, producers: []string{"EW"}, restart: true}, "qt", 2, 3)
+		reg("C04", asyncCfg{policy: pol, prefill: 99, gate: "tokens5", producers: []string{"EW", "WE"}, restart: true}, "qt", 1, 2)
+		reg("C05", asyncCfg{policy: pol, prefill: 2, stopRace: true, producers: []string{"WE"}, restart: true}, "qt", 2, 3)
 	}
 	// C04 with Stop racing the drain (the statement is about the moment Stop returns, whatever is still
 	// queued when it is called): backlog of 0 / 2 / 50 / 99 items + one producer, free and slow worker
